@@ -57,3 +57,14 @@ chk("C24", "proof",
     "Theorems (Coq, 31 obligations; 26 closed, the 5 about real-valued IEEE semantics modulo the standard library's real-number axioms): for ALL 32-bit arguments every integer/unsigned/bitwise/shift/logical/min-max/comparison/exponent/string operator's code-shaped definition equals its mathematical specification on the defined domain; float operators are IEEE-754 binary32 round-to-nearest-even (Coq SpecFloat, bridged to Flocq), float addition is proved non-associative by witness. Tied by one generated program that applies every operator to a boundary grid x random values in the interpreter AND the compiled executable, compared with the extracted model (floats as bit patterns).",
     "Trusted: Coq kernel; axioms of the 5 float theorems: ClassicalDedekindReals.sig_not_dec, sig_forall_dec, FunctionalExtensionality.functional_extensionality_dep, Classical_Prop.classic (standard library, via Flocq/Reals); extraction + driver; std::pow exactness assumed; NaN payloads canonicalised; FEXP, float<->string not modelled.",
     "Coq proofs operator-by-operator (code-shaped = specification) + differential correspondence on interpreter and compiled code", "DESIGN.md §6 C24")
+
+HOOK_COMMITS += ["c33f71e7c"]
+
+chk("C31", "proof",
+    "Theorems (Coq, closed, 14 obligations) over a model of ConcurrentInsertOnlyHashMap::get whose steps are its atomic operations (lane lock, bucket-head load, CAS, size increment, the growth protocol) for any number of lanes/keys/steps: no key published twice, every node in its hash bucket, equal keys -> one node and different keys -> different nodes, exactly one `inserted` per key at quiescence, growth only while all other lanes are outside their load..CAS window and it preserves the published set, Size counts published nodes; flyweight: injective indices, fetch inverse, reserved index 0 never returned, iteration lists each assigned slot once; exhaustive explorations of contended instances with growth. Tied at step level for the hash map (hook H4, deterministic scheduler, schedule replayed in the extracted model with the real prime growth policy; responses, bucket count, chains, Size compared) and at API level for SymbolTableImpl/RecordTable (2-8 lanes, duplicates, growth, perturbed schedules; the bijection predicate itself evaluated).",
+    "Trusted: Coq kernel (vm_compute in bounded theorems); extraction + driver; cpp/vsched.h, harnesses, hooks H4/H6; std::mutex as an atomic lock; sequential consistency; the flyweight model treats the map lookup as one step (tied at API level only); weakFind not modelled.",
+    "Coq invariant proofs over an atomic-step model + step-level replay correspondence (hash map) + API-level predicate runs (symbol/record tables)", "DESIGN.md §6 C31")
+chk("C17", "proof",
+    "Theorems (Coq, closed, 12 obligations): for every accepted configuration (any delimiter, rfc4180, headers) and every row list whose fields satisfy the explicit predicate `representable`, reading the written file returns exactly the rows -- numbers over the full 32-bit ranges, arbitrary-byte symbols under rfc4180, nested/nil records, ADTs; tightness witnesses for what each format cannot represent; the writers before the repairs are proved not to round-trip. Tied at unit level: real WriteFileCSV/ReadFileCSV vs extracted model on generated tuple sets x 12 configurations (bytes written and tuples read compared token by token; every case the model proves representable must round-trip on the real code); at system level: store-then-load program pairs for tab/comma/rfc4180/headers/gzip/JSON/SQLite.",
+    "Trusted: Coq kernel; extraction + driver; cpp/io_harness.cpp; float text formatting (libc), zlib, SQLite and the JSON streams are not modelled (system-level predicate only; four recorded findings there).",
+    "Coq round-trip proof of the CSV/record/ADT text codec + differential correspondence with the real reader/writer", "DESIGN.md §6 C17")
